@@ -196,6 +196,12 @@ Theorem C12_primitive_ranges : forall M k n : N,
 Proof. exact (fun M k n => conj (threshold_range M k n) (conj (abs_lock_range n) (rel_lock_range n))). Qed.
 Print Assumptions C12_primitive_ranges.
 
+Theorem C12_threshold_from_iter : forall M k h n : N,
+  (threshold_from_iter M k h n = true -> 1 <= k /\ k <= n /\ (M = 0 \/ n <= M)) /\
+  (h <= n -> (threshold_from_iter M k h n = true <-> 1 <= k /\ k <= n /\ (M = 0 \/ n <= M))).
+Proof. exact (fun M k h n => conj (threshold_from_iter_sound M k h n) (threshold_from_iter_exact M k h n)). Qed.
+Print Assumptions C12_threshold_from_iter.
+
 (* ---- non-vacuity ------------------------------------------------------------------------ *)
 Example C12_nonvacuous_entry_points :
   ms_from_str CSegwitv0 x_pk = EOk /\ ms_from_str_insane CLegacy x_pk = EOk /\
